@@ -184,9 +184,13 @@ class Doc:
         self.file = get_parser().parse(text, models.File, auto_claim_comments=flag)
         self.ids: dict[int, int] = {}
         self.objs: list = []
+        self.nids: dict[int, int] = {}
+        self.nobjs: list = []
         for t in self.file.token_store:
             self.tid(t)
         self.log: list = []          # primitive calls of the current API call
+        for _path, m in self.nodes():  # deterministic owner ids: tree order at parse time
+            self.nid(m)
 
     def tid(self, t) -> int:
         k = id(t)
@@ -194,6 +198,30 @@ class Doc:
             self.ids[k] = len(self.objs) + 1
             self.objs.append(t)
         return self.ids[k]
+
+    def nid(self, m) -> int:
+        """small stable id of a tree model / Repeated (slot owner in the ownership table)"""
+        k = id(m)
+        if k not in self.nids:
+            self.nids[k] = len(self.nids) + 1
+            self.nobjs.append(m)
+        return self.nids[k]
+
+    def table0(self):
+        """ownership table as Comments.v's `table`: [(slot kind, owner id, [comment ids])], non-empty slots"""
+        _, _, models, _, _, sc, _, Repeated = _imp()
+        out = []
+        for path, m in self.nodes():
+            if isinstance(m, Repeated):
+                cs = [self.tid(it) for it in m.items if isinstance(it, models.BlockComment)]
+                if cs:
+                    out.append(('SRep', self.nid(m), cs))
+            elif isinstance(m, sc.SurroundingCommentsMixin):
+                if m._leading_comment is not None:
+                    out.append(('SLead', self.nid(m), [self.tid(m._leading_comment)]))
+                if m._trailing_comment is not None:
+                    out.append(('STrail', self.nid(m), [self.tid(m._trailing_comment)]))
+        return out
 
     def tokens(self):
         return list(self.file.token_store)
@@ -280,7 +308,19 @@ class Tap:
         self.orig_ul = sc.SurroundingCommentsMixin.unclaim_leading_comment
         self.orig_ut = sc.SurroundingCommentsMixin.unclaim_trailing_comment
         self.orig_ui = ic.RepeatedNodeWithInterleavingCommentsWrapper.unclaim_interleaving_comments
+        self.orig_cl = sc.SurroundingCommentsMixin.claim_leading_comment
+        self.orig_ct = sc.SurroundingCommentsMixin.claim_trailing_comment
+        self.slot = None
         tap = self
+
+        def claim_method(which, orig):
+            def f(self_, **kw):
+                tap.slot = (d.nid(self_), which, self_)
+                try:
+                    return orig(self_, **kw)
+                finally:
+                    tap.slot = None
+            return f
 
         def same_store(ts):
             return ts is d.file.token_store
@@ -288,9 +328,11 @@ class Tap:
         def claim(current, token_store, start, **kw):
             if not same_store(token_store):
                 return tap.orig_claim(current, token_store, start, **kw)
+            n, which, owner = tap.slot if tap.slot else (0, 'lead' if kw['backwards'] else 'trail', None)
             rec = {'op': 'claim', 'cur': d.tid(current) if current is not None else None, 'start': d.tid(start),
                    'bw': kw['backwards'], 'ign': kw['ignore_if_already_claimed'],
-                   'ind': kw.get('indented'), 'before': d.snap()}
+                   'ind': kw.get('indented'), 'before': d.snap(), 'n': n, 'which': which, 'mode': 0}
+            r = current
             try:
                 r = tap.orig_claim(current, token_store, start, **kw)
                 rec['exc'] = None
@@ -302,6 +344,7 @@ class Tap:
                 raise
             finally:
                 rec['after'] = d.snap()
+                rec['slot_after'] = [d.tid(r)] if r is not None else []
                 d.log.append(rec)
 
         def items_of(rep):
@@ -319,7 +362,7 @@ class Tap:
                 sorted(d.ids.get(x, 0) for x in self_._comments_to_claim)
             rec = {'op': 'claimer', 'ph': d.tid(rep.first_token), 'items': items_of(rep),
                    'mfirst': d.tid(self_._model.first_token), 'mlast': d.tid(self_._model.last_token),
-                   'filter': flt, 'before': d.snap()}
+                   'filter': flt, 'before': d.snap(), 'r': d.nid(rep), 'mode': 0}
             try:
                 r = tap.orig_claimer(self_)
                 rec['exc'] = None
@@ -332,6 +375,7 @@ class Tap:
             finally:
                 rec['after'] = d.snap()
                 rec['items_after'] = [(a, b) for a, b, _, _ in items_of(rep)]
+                rec['slot_after'] = [b for a, b, _, _ in items_of(rep) if a]
                 d.log.append(rec)
 
         def unclaim(which, orig):
@@ -340,13 +384,13 @@ class Tap:
                     return orig(self_)
                 cur = self_._leading_comment if which == 'lead' else self_._trailing_comment
                 rec = {'op': 'unclaim', 'which': which, 'cur': d.tid(cur) if cur is not None else None,
-                       'before': d.snap()}
+                       'before': d.snap(), 'n': d.nid(self_), 'mode': 0}
                 r = orig(self_)
                 rec['after'] = d.snap()
                 rec['exc'] = None
                 rec['ret'] = d.tid(r) if r is not None else None
                 now = self_._leading_comment if which == 'lead' else self_._trailing_comment
-                rec['slot_after'] = d.tid(now) if now is not None else None
+                rec['slot_after'] = [d.tid(now)] if now is not None else []
                 d.log.append(rec)
                 return r
             return f
@@ -358,7 +402,7 @@ class Tap:
             comments = list(comments) if comments is not None else None
             rec = {'op': 'unclaim_inter', 'items': items_of(rep),
                    'filter': None if comments is None else [d.ids.get(id(c), 0) for c in comments],
-                   'before': d.snap()}
+                   'before': d.snap(), 'r': d.nid(rep), 'mode': 0}
             try:
                 r = tap.orig_ui(self_, comments)
                 rec['exc'] = None
@@ -371,9 +415,12 @@ class Tap:
             finally:
                 rec['after'] = d.snap()
                 rec['items_after'] = [(a, b) for a, b, _, _ in items_of(rep)]
+                rec['slot_after'] = [b for a, b, _, _ in items_of(rep) if a]
                 d.log.append(rec)
 
         sc._claim_comment = claim
+        sc.SurroundingCommentsMixin.claim_leading_comment = claim_method('lead', self.orig_cl)
+        sc.SurroundingCommentsMixin.claim_trailing_comment = claim_method('trail', self.orig_ct)
         ic._CommentClaimer.claim = claimer
         sc.SurroundingCommentsMixin.unclaim_leading_comment = unclaim('lead', self.orig_ul)
         sc.SurroundingCommentsMixin.unclaim_trailing_comment = unclaim('trail', self.orig_ut)
@@ -386,6 +433,8 @@ class Tap:
         self.sc.SurroundingCommentsMixin.unclaim_leading_comment = self.orig_ul
         self.sc.SurroundingCommentsMixin.unclaim_trailing_comment = self.orig_ut
         self.ic.RepeatedNodeWithInterleavingCommentsWrapper.unclaim_interleaving_comments = self.orig_ui
+        self.sc.SurroundingCommentsMixin.claim_leading_comment = self.orig_cl
+        self.sc.SurroundingCommentsMixin.claim_trailing_comment = self.orig_ct
         return False
 
 
@@ -464,10 +513,13 @@ def apply_op(doc: Doc, op):
                 un, cl = ((tgt.unclaim_leading_comment, tgt.claim_leading_comment) if name == 'reclaim_leading'
                           else (tgt.unclaim_trailing_comment, tgt.claim_trailing_comment))
                 before = doc.table()
+                k0 = len(doc.log)
                 c = un()
                 if c is not None:
                     cl()
                     extra['restore'] = (before, doc.table())
+                    if len(doc.log) > k0 and doc.log[k0]['op'] == 'unclaim':
+                        doc.log[k0]['mode'] = 2      # hypothesis of the restore theorem is evaluated here
             elif name == 'claim_inter':
                 tgt.claim_interleaving_comments(None if arg is None else comments_by_index(doc, arg))
             elif name == 'unclaim_inter':
@@ -479,15 +531,22 @@ def apply_op(doc: Doc, op):
                     mine = [c for c in mine if id(c) in pick]
                 if mine:
                     before = doc.table()
+                    k0 = len(doc.log)
                     u = tgt.unclaim_interleaving_comments(mine)
                     tgt.claim_interleaving_comments(u)
                     extra['restore'] = (before, doc.table())
+                    if len(doc.log) == k0 + 2 and doc.log[k0]['op'] == 'unclaim_inter' \
+                            and doc.log[k0 + 1]['op'] == 'claimer' and not doc.log[k0 + 1]['exc']:
+                        doc.log[k0]['mode'] = 3      # hypotheses of the interleaving restore theorem
             elif name in ('auto', 'auto2'):
                 tgt.auto_claim_comments()
                 if name == 'auto2':
                     t1 = doc.table()
+                    k0 = len(doc.log)
                     tgt.auto_claim_comments()
                     extra['idem'] = (t1, doc.table())
+                    for rec in doc.log[k0:]:
+                        rec['mode'] = 1              # hypotheses of the idempotence theorem are evaluated here
         except Exception as e:  # an exception is an observable result
             exc = common.exn_name(e)
             extra['exc_text'] = f'{type(e).__name__}: {e}'[:200]
@@ -563,9 +622,12 @@ def readonly_sweep(doc: Doc, rng, budget: int = 400):
             return f'reading the attributes of {path} ({type(m).__name__}) changed the store'
     sur, wrap, allm = doc.targets()
     for path, m in rng.sample(allm, min(4, len(allm))):
-        c = copy.deepcopy(m)
-        m == c
-        print_text(m)
+        try:
+            c = copy.deepcopy(m)
+            m == c
+            print_text(m)
+        except Exception:          # a failing deepcopy is C11's business; here only "does not change the document"
+            pass
         if doc.full() != snap0:
             return f'deepcopy/==/print of {path} changed the store'
     if print_text(doc.file) != text0:
@@ -597,37 +659,47 @@ EXC = {None: 0, 'ValueError': 1, 'IndexError': 2, 'KeyError': 3, 'AssertionError
 
 def coq_prim(rec, patched: bool):
     exc = EXC.get(rec['exc'], 8)
-    after = coq_snap(rec['after'])
+    ids_b, ids_a = [i for i, _ in rec['before']], [i for i, _ in rec['after']]
+    after = ('None' if ids_a == ids_b else f'(Some {common.coq_zlist(ids_a)})') + ' ' + \
+        common.coq_zlist(i for i, c in rec['after'] if c)
+    items_after = '[]'
     if rec['op'] == 'claim':
         ind = 'None' if not patched or rec.get('ind') is None else f'(Some {common.coq_bool(rec["ind"])})'
-        call = (f'PClaim {coq_optz(rec["cur"])} {rec["start"]} {common.coq_bool(rec["bw"])} '
-                f'{common.coq_bool(rec["ign"])} {ind}')
+        ctor = 'ClaimLead' if rec['which'] == 'lead' else 'ClaimTrail'
+        call = f'OS ({ctor} {rec["n"]} {rec["start"]} {common.coq_bool(rec["ign"])} {ind})'
         ret = coq_list_z([] if rec['ret'] is None else [rec['ret']])
-        items_after = '[]'
     elif rec['op'] == 'claimer':
         flt = 'None' if rec['filter'] is None else f'(Some {common.coq_zlist(rec["filter"])})'
-        call = f'PClaimer {rec["ph"]} {coq_items(rec["items"])} {rec["mfirst"]} {rec["mlast"]} {flt}'
+        call = f'OClaimInter {rec["r"]} {rec["ph"]} {coq_items(rec["items"])} {rec["mfirst"]} {rec["mlast"]} {flt}'
         ret = coq_list_z(rec['ret'])
         items_after = common.coq_list(f'({common.coq_bool(a)},{b})' for a, b in rec['items_after'])
     elif rec['op'] == 'unclaim':
-        call = f'PUnclaim {coq_optz(rec["cur"])}'
+        ctor = 'UnclaimLead' if rec['which'] == 'lead' else 'UnclaimTrail'
+        call = f'OS ({ctor} {rec["n"]})'
         ret = coq_list_z([] if rec['ret'] is None else [rec['ret']])
-        items_after = '[]'
     else:
         flt = 'None' if rec['filter'] is None else f'(Some {common.coq_zlist(rec["filter"])})'
-        call = f'PUnclaimInter {coq_items(rec["items"])} {flt}'
+        call = f'OUnclaimInter {rec["r"]} {coq_items(rec["items"])} {flt}'
         ret = coq_list_z(rec['ret'])
         items_after = common.coq_list(f'({common.coq_bool(a)},{b})' for a, b in rec['items_after'])
-    return f'(({call}), mkobs {exc} {ret} {items_after} {after})'
+    slot = coq_list_z(rec['slot_after'])
+    return f'mkstep ({call}) (mkobs {exc} {ret} {items_after} {after} {slot}) {rec.get("mode", 0)}'
 
 
 def coq_list_z(xs):
     return common.coq_zlist(xs)
 
 
-def coq_case(full0, prims, patched):
-    toks = common.coq_list(coq_tok(*t) for t in full0)
-    return f'mkccase {toks} {common.coq_list(coq_prim(p, patched) for p in prims)}'
+def coq_table(tb):
+    return common.coq_list(f'({k} {n}, {common.coq_zlist(cs)})' for k, n, cs in tb)
+
+
+def coq_case(full0, table0, hists, patched):
+    """one initial state, several histories run from it. Token texts are cut to 3 code points: the model only
+    looks at emptiness and at the first character of a comment (its indentation class)."""
+    toks = common.coq_list(coq_tok(i, k, x[:3], c) for (i, k, x, c) in full0)
+    hs = common.coq_list(common.coq_list(coq_prim(p, patched) for p in prims) for prims in hists)
+    return f'mkccase {toks} {coq_table(table0)} {hs}'
 
 
 # ---------------------------------------------------------------------------------------------
@@ -734,9 +806,8 @@ def run_document(ctx, prop: str, lines, crlf, final_nl, ops_seed, n_ops, witness
     with Tap(d_false):
         d_false.log = []
         d_false.file.auto_claim_comments()
-    prims = d_false.log
-    full0 = Doc(text, False).full()
-    cases.append((coq_case(full0, prims, patched), dict(wit, ops=[['auto', 'F', None]])))
+    hists = {False: [d_false.log], True: []}
+    metas = {False: [[['auto', 'F', None]]], True: []}
     if d_false.table() != d_true.table():
         mon('C14', 'C14:parse-vs-later', 'parse(auto_claim_comments=True) and parse(False)+auto_claim_comments() '
             'attribute differently', {'a': d_true.table(), 'b': d_false.table()})
@@ -816,14 +887,22 @@ def run_document(ctx, prop: str, lines, crlf, final_nl, ops_seed, n_ops, witness
             msg = readonly_sweep(doc, rng, budget=150)
             if msg:
                 mon('C04', 'C04:readonly', msg, {'flag': flag, 'ops': ops})
-        cases.append((coq_case(full0, prims, patched), dict(wit, flag=flag, ops=ops)))
+        hists[flag].append(prims)
+        metas[flag].append(ops)
         ctx.count('impl_primitive_calls', len(prims))
         for p in prims:
             ctx.dist('prim=' + p['op'] + ('' if not p['exc'] else ':' + p['exc']))
+            if p.get('mode'):
+                ctx.count({1: 'hyp_idempotence_steps', 2: 'hyp_restore_surrounding', 3: 'hyp_restore_interleaving'}[p['mode']])
     kinds = sorted({('i' if l['ind'] else 'u') + l['t'][0] for l in lines})
     ctx.case({'n_lines': len(lines), 'n_comments': n_com, 'crlf': crlf, 'final_nl': final_nl, 'line_kinds': kinds},
              nontrivial=n_com > 0)
     ctx.dist(f'comments={min(n_com, 6)}')
+    for flag in (False, True):
+        if hists[flag]:
+            d0 = Doc(text, flag)
+            cases.append((coq_case(d0.full(), d0.table0(), hists[flag], patched),
+                          dict(wit, flag=flag, histories=metas[flag]), len(hists[flag])))
     return cases
 
 
@@ -852,14 +931,24 @@ def rule_check(ctx, doc: Doc, lines, exp, blocks, mon):
                 got[line_of(m._trailing_comment)] = ('trail', start)
     ctx.count('rule_comments_checked', len(exp))
     ends_of = {a: b for a, b in blocks}
+    # an unindented comment directly followed by an indented line: whether the directive above extends over both
+    # is not fixed by the documented rule (the grammar lets it) -> no verdict for the comments of that paragraph
+    ambiguous = set()
+    for i in range(len(lines) - 1):
+        if lines[i]['t'] == 'comment' and not lines[i]['ind'] and lines[i + 1]['ind'] and lines[i + 1]['t'] != 'blank':
+            lo = i
+            while lo > 0 and lines[lo - 1]['t'] != 'blank':
+                lo -= 1
+            hi = i
+            while hi + 1 < len(lines) and lines[hi + 1]['t'] != 'blank':
+                hi += 1
+            ambiguous.update(range(lo, hi + 1))
     for a, e in exp.items():
         g = got.get(a)
         if g == e:
             continue
         b = ends_of[a]
-        if not lines[a]['ind'] and b + 1 < len(lines) and lines[b + 1]['ind'] and lines[b + 1]['t'] != 'blank':
-            # an unindented comment directly followed by an indented line: whether the directive above extends
-            # over it is not fixed by the documented rule -> no verdict
+        if a in ambiguous:
             ctx.count('rule_oracle_skipped_ambiguous_extent')
             continue
         if g == ('standalone',) and e[0] == 'trail' and lines[e[1]].get('level') == 1 \
@@ -939,12 +1028,23 @@ def run_all(ctx, prop: str, n_quick: int, n_thorough: int):
         all_cases.extend(cs)
     if ctx.counters.get('layouts_parsed', 0) < len(docs) // 3:
         ctx.fail('tie', 'generator', 'most generated layouts are rejected by the parser')
-    bad = ctx.run_coq_cases('comments', PREAMBLE, 'ccase', 'check_case', [c for c, _ in all_cases], chunk=25)
-    ctx.count('traces_validated_against_impl', len(all_cases) - len(bad))
-    for i in bad[:3]:
-        ctx.fail('corr', 'comments-correspondence',
-                 'Comments.v and the implementation disagree on the result / store after a primitive comment call',
-                 all_cases[i][1])
+    texts = [c[0] for c in all_cases]
+    bad = ctx.run_coq_cases('comments', PREAMBLE, 'ccase', 'check_all', texts, chunk=12)
+    ctx.count('traces_validated_against_impl', sum(c[2] for i, c in enumerate(all_cases) if i not in set(bad)))
+    ctx.count('theorem_hypotheses_evaluated_on_cases', len(all_cases) - len(bad))
+    if bad:
+        sub = [texts[i] for i in bad[:6]]
+        bad_corr = set(ctx.run_coq_cases('classify', PREAMBLE, 'ccase', 'check_case', sub, chunk=6))
+        for k, i in enumerate(bad[:6]):
+            if k in bad_corr:
+                ctx.fail('corr', 'comments-correspondence',
+                         'Comments.v and the implementation disagree on the result / store / ownership slot after a '
+                         'primitive comment call', all_cases[i][1])
+            else:
+                ctx.fail('corr', 'theorem-hypothesis',
+                         'a hypothesis of the C14 theorems (Inv on the parsed state, op_ok before a call, auto_ok '
+                         'in a repeated auto-claim, adjacency before unclaim+claim, empty placeholders) does not '
+                         'hold on a trace of the implementation', all_cases[i][1])
 
 
 def replay_witness(ctx, prop, path):
@@ -957,7 +1057,7 @@ def replay_witness(ctx, prop, path):
     cases = run_document(ctx, prop, w['lines'], w['crlf'], w['final_nl'], w['ops_seed'], w['n_ops'])
     for x in ctx.failures:
         print(x.kind + ':', x.signature, x.what)
-    bad = ctx.run_coq_cases('replay', PREAMBLE, 'ccase', 'check_case', [c for c, _ in cases], chunk=25)
+    bad = ctx.run_coq_cases('replay', PREAMBLE, 'ccase', 'check_all', [c[0] for c in cases], chunk=25)
     print('model/implementation agree' if not bad else 'model/implementation DISAGREE')
     return 1 if (ctx.failures or bad) else 0
 
@@ -968,7 +1068,11 @@ RULE = ('ledgers generated from a line grammar (directives with/without metadata
         'False, then seeded histories of claim_/unclaim_ leading/trailing/interleaving and auto_claim_comments on '
         'every reachable model; a case is non-trivial when the document has at least one block comment; distinct by '
         '(line count, comment count, CRLF, final newline, kinds of lines)')
-ASSUME = ['the token store is the plain list of its tokens (C07); get_next/get_prev/iter/splice on it are list operations',
+ASSUME = ['every hypothesis of the C14 theorems is evaluated on every trace (CommentsRun.hyp_case): inv_b on the parsed '
+          'state, op_ok (item list = table entry, items in store order behind the placeholder) before every call, '
+          'auto_ok in repeated auto-claims, adjacent_comment / refs_ok_b before unclaim+claim',
+          'token texts are cut to 3 code points on the Coq side (the model reads emptiness and a comment\'s first character)',
+          'the token store is the plain list of its tokens (C07); get_next/get_prev/iter/splice on it are list operations',
           'token ids are unique in a store (checked on every state by the correspondence)',
           'first_token/last_token of models are inputs of each primitive call (observed), not recomputed by the model',
           'the parser is an oracle: initial states are the implementation\'s parse results']
@@ -978,11 +1082,11 @@ def run(ctx: common.Ctx):
     ctx.rule = RULE
     ctx.assumptions += ASSUME
     ctx.require_coq(['properties/C14'], extra_targets=['CommentsRun'])
-    run_all(ctx, 'C14', 70, 1000)
+    run_all(ctx, 'C14', 700, 4000)
 
 
 def search(ctx: common.Ctx):
-    run_all(ctx, 'C14', 70, 1000)
+    run_all(ctx, 'C14', 700, 4000)
 
 
 def replay(ctx, path):
